@@ -82,6 +82,10 @@ P = {
   "Same package space and corpus as C09; relational oracle between original and emitted text: resolved export-name sets (equal for entrypoints, subset otherwise), declaration kinds, every written annotation / type-parameter list / heritage clause / interface-type-enum text carried over, unused private declarations absent.",
   "Emitted text is re-parsed with the same swc parser the subject uses (common-mode risk); export / signature / unresolved-identifier extractors and the VLQ source-map decoder are the harness's own. Packages that get diagnostics instead of output are only counted. Overload implementation signatures are not public API and are not compared.",
   "DESIGN.md §4 C09-C11", TECH + "; deviation-bounded enumeration of generated packages + full corpus, relational API-preservation oracle"),
+ "C12": (True,
+  "All operation histories up to depth 4 (quick) / 5 (thorough) over a two-package world with 2-3 source variants per module are replayed against the real fast-check transform with one shared cache (cold, warm, stale entries arise along the history); after each operation all-or-nothing per package is checked with and without the cache, recorded dependencies of every emitted module are compared with a re-analysis of the emitted text, the with-cache result is compared with the cache-less one, and two cache-less runs are compared.",
+  "One hand-built world (5 modules, 14 variants); workspace members and fast_check_dts are outside it. Each operation rebuilds the graph from the current sources.",
+  "DESIGN.md §4 C12", TECH + "; exhaustive operation histories over source variants with a shared cache, differential oracle against cache-less runs"),
 }
 
 ALL = ["C%02d" % i for i in range(1, 21)]
